@@ -72,6 +72,17 @@ fn opt(o: Option<u64>) -> String {
     }
 }
 
+fn hexs(b: &[u8]) -> String {
+    let mut s = String::new();
+    for x in b {
+        write!(s, "{:02x}", x).unwrap();
+    }
+    if s.is_empty() {
+        s.push('.');
+    }
+    s
+}
+
 fn guard<T, F: FnOnce() -> T>(f: F) -> Option<T> {
     catch_unwind(AssertUnwindSafe(f)).ok()
 }
@@ -224,6 +235,44 @@ pub fn run(path: &str) {
                     }
                 });
                 writeln!(out, "rb {}", r.unwrap_or_else(|| "panic".to_string())).unwrap();
+            }
+            "hdr" => {
+                // hdr <hexbytes>: Qcow2Header::from_buf on an arbitrary buffer
+                let bytes: Vec<u8> = if t.len() > 1 {
+                    (0..t[1].len() / 2).map(|i| u8::from_str_radix(&t[1][2 * i..2 * i + 2], 16).unwrap()).collect()
+                } else {
+                    Vec::new()
+                };
+                let r = guard(|| match Qcow2Header::from_buf(&bytes) {
+                    Ok(h) => {
+                        let mut s = format!(
+                            "ok v={} cb={} size={} ro={} l1={}/{} rt={}/{} crypt={} ct={} hl={} back={}",
+                            h.version(),
+                            h.cluster_bits(),
+                            h.size(),
+                            h.refcount_order(),
+                            h.l1_table_offset(),
+                            h.l1_table_entries(),
+                            h.reftable_offset(),
+                            h.reftable_clusters(),
+                            h.crypt_method(),
+                            h.compression_type(),
+                            h.header_length(),
+                            h.backing_filename().map(|x| hexs(x.as_bytes())).unwrap_or_else(|| "-".to_string())
+                        );
+                        // re-serialise and parse again: fields must survive
+                        let mut h = h;
+                        match h.serialize_to_buf() {
+                            Ok(v) => {
+                                write!(s, " ser={}", hexs(&v)).unwrap();
+                            }
+                            Err(_) => write!(s, " ser=err").unwrap(),
+                        }
+                        s
+                    }
+                    Err(_) => "err".to_string(),
+                });
+                writeln!(out, "hdr {}", r.unwrap_or_else(|| "panic".to_string())).unwrap();
             }
             "align" => {
                 let v: u64 = t[1].parse().unwrap();
